@@ -259,12 +259,14 @@ def generate(rng, i):
                 markup = big
                 break
     return {"kind": "c06", "zones": zones, "only_rebalances": only_rebalances, "cash": cash, "rate": rate, "markup": markup, "setup": setup,
+            "late_rate_feed": i % 4 == 2,
             "lev": rng.choice([1.5, 2.0, 3.0]), "fut_side": rng.choice([1, -1]), "t0": "2000-01-01T00:00:00", "script": script}
 
 
 class Account(object):
     def __init__(self, sc, cash, with_position):
         self.t_utc = core.parse_t(sc["t0"])
+        self.late_feed = bool(sc.get("late_rate_feed"))
         self.zones = sc.get("zones")
         self.z = 0
         self.ex = Exchange()
@@ -316,7 +318,12 @@ class Account(object):
         self.ex.process_EventNBBO(EventNBBO(self.t, self.fut, self.fut_px, self.fut_px))
 
     def set_rate(self, r):
-        self.ex.process_EventNBBO(EventNBBO(self.t, Rate(world.RATE_NAME), r, r))
+        if self.late_feed:
+            # the fixing is stamped a second before the present (before the futures quote the exchange may just have seen)
+            # and handed to the exchange through the event's own dispatch: a late, out-of-order publication
+            EventNBBO(self.render(self.t_utc - timedelta(seconds=1)), Rate(world.RATE_NAME), r, r).notify([self.ex])
+        else:
+            self.ex.process_EventNBBO(EventNBBO(self.t, Rate(world.RATE_NAME), r, r))
         self.rate = r
 
 
